@@ -19,6 +19,7 @@ search: the property predicate on the real implementation against an independent
 """
 import os
 import shutil
+import signal
 import subprocess
 import tempfile
 
@@ -64,6 +65,35 @@ Definition ceq (c : curve) (name : list N) (p a b gx gy n h : Z) : bool :=
 SMALL = [(7, 1, 1, 5), (7, 0, 5, 7), (7, 4, 6, 11), (11, 1, 6, 13), (11, 8, 1, 17),
          (13, 10, 1, 19), (17, 14, 3, 23), (23, 1, 4, 29), (29, 4, 9, 37), (37, 0, 5, 37),
          (31, 28, 6, 41), (31, 0, 3, 43)]
+
+
+class ImplTimeout(Exception):
+    """a single call into the implementation ran for more than WATCHDOG seconds (a modified
+    `while` loop may not terminate and would otherwise eat all memory)"""
+
+
+WATCHDOG = 5.0
+
+
+def _on_alarm(sig, frame):
+    raise ImplTimeout("implementation call did not return within %.0f s" % WATCHDOG)
+
+
+def kick():
+    """(re)arm the watchdog; called before every call into the implementation"""
+    signal.setitimer(signal.ITIMER_REAL, WATCHDOG)
+
+
+ARMED = [False]
+
+
+def watchdog(on):
+    ARMED[0] = bool(on)
+    if on:
+        signal.signal(signal.SIGALRM, _on_alarm)
+        kick()
+    else:
+        signal.setitimer(signal.ITIMER_REAL, 0)
 
 
 def lib():
@@ -339,11 +369,38 @@ def spec_formula_ok(fn, p, a, J1, J2, res):
 
 
 def correspondence(ctx):
+    watchdog(True)
+    try:
+        exprs, meta, heavy = _correspondence_cases(ctx)
+    finally:
+        watchdog(False)
+    bad = ctx.coq_eval("ec", IMPORTS, exprs, preamble=PREAMBLE, shard=120)
+    bad_h = ctx.coq_eval("ecbig", IMPORTS, [e for e, _ in heavy], preamble=PREAMBLE, shard=1, timeout=1500)
+    if bad is None or bad_h is None:
+        return
+    ctx.traces += len(exprs) + len(heavy)
+    for i in bad:
+        m = meta[i]
+        if m[0] == "formula":
+            _, fn, p, a, b, J1, J2, res = m
+            ok = spec_formula_ok(fn, p, a, J1, J2, res)
+            if ok is False:
+                ctx.fail("formula-wrong", {"fn": fn, "p": p, "a": a, "b": b, "J1": list(J1), "J2": list(J2) if J2 else None},
+                         "implementation returns %r which does not denote the affine result" % (res,))
+                continue
+        ctx.broken("correspondence: %s differs from the implementation" % (
+            "generated " + COQ_NAME.get(m[1], m[1]) if m[0] == "formula" else "model/generated " + m[0]), repr(m)[:1500])
+    for i in bad_h:
+        ctx.broken("correspondence: model %s differs from the implementation" % heavy[i][1][0], repr(heavy[i][1])[:1500])
+
+
+def _correspondence_cases(ctx):
     ec, curves, ecdsa_mod, keys, ecdh, errors = lib()
     r = ctx.rng
     exprs, meta = [], []
 
     def add(expr, m):
+        kick()
         exprs.append(expr)
         meta.append(m)
 
@@ -534,24 +591,7 @@ def correspondence(ctx):
             ("mul_add-big", c.name, k1, k2)))
         ctx.case(("mul_add-big", c.name, k1, k2))
 
-    bad = ctx.coq_eval("ec", IMPORTS, exprs, preamble=PREAMBLE, shard=120)
-    bad_h = ctx.coq_eval("ecbig", IMPORTS, [e for e, _ in heavy], preamble=PREAMBLE, shard=1, timeout=1500)
-    if bad is None or bad_h is None:
-        return
-    ctx.traces += len(exprs) + len(heavy)
-    for i in bad:
-        m = meta[i]
-        if m[0] == "formula":
-            _, fn, p, a, b, J1, J2, res = m
-            ok = spec_formula_ok(fn, p, a, J1, J2, res)
-            if ok is False:
-                ctx.fail("formula-wrong", {"fn": fn, "p": p, "a": a, "b": b, "J1": list(J1), "J2": list(J2) if J2 else None},
-                         "implementation returns %r which does not denote the affine result" % (res,))
-                continue
-        ctx.broken("correspondence: %s differs from the implementation" % (
-            "generated " + COQ_NAME.get(m[1], m[1]) if m[0] == "formula" else "model/generated " + m[0]), repr(m)[:1500])
-    for i in bad_h:
-        ctx.broken("correspondence: model %s differs from the implementation" % heavy[i][1][0], repr(heavy[i][1])[:1500])
+    return exprs, meta, heavy
 
 
 # ---------------------------------------------------------------------------
@@ -586,6 +626,7 @@ def small_group_search(ctx, cvp, full):
                     A, B = mkpt(cv, P, z1, n), mkpt(cv, Q, z2, n)
                     ja, jb = coords(A), coords(B)
                     try:
+                        kick()
                         got = to_aff(A + B, p)
                     except Exception as e:
                         got = "exception %r" % (e,)
@@ -600,6 +641,7 @@ def small_group_search(ctx, cvp, full):
             A = mkpt(cv, P, z1, n)
             ja = coords(A)
             try:
+                kick()
                 got = to_aff(A.double(), p)
             except Exception as e:
                 got = "exception %r" % (e,)
@@ -626,6 +668,7 @@ def small_group_search(ctx, cvp, full):
                         A = tab if gen else mkpt(cv, P, z, order, gen)
                         ja = coords(A)
                         try:
+                            kick()
                             got = to_aff(A * k, p)
                             got2 = to_aff(k * mkpt(cv, P, z, order, gen), p) if (k % 7 == 0) else got
                         except Exception as e:
@@ -652,6 +695,7 @@ def small_group_search(ctx, cvp, full):
                 B = mkpt(cv, Q, z2, n, g2 and Q is not None)
                 ja, jb = coords(A), coords(B)
                 try:
+                    kick()
                     got = to_aff(A.mul_add(k1, B, k2), p)
                 except Exception as e:
                     got = "exception %r" % (e,)
@@ -692,6 +736,7 @@ def shipped_search(ctx):
                         ("naf-noorder-z", ec.PointJacobi(c.curve, G[0] * z * z % p, G[1] * z * z * z % p, z))]
             for nm, pt in variants:
                 try:
+                    kick()
                     got = to_aff(pt * k, p)
                 except Exception as e:
                     got = "exception %r" % (e,)
@@ -702,6 +747,7 @@ def shipped_search(ctx):
             want2 = a_add(want, a_mul(k2, Q, p, a), p, a)
             for g2 in (False, True):
                 try:
+                    kick()
                     other = ec.PointJacobi(c.curve, Q[0], Q[1], 1, n, generator=g2)
                     got = to_aff(c.generator.mul_add(k, other, k2), p)
                     got_b = to_aff(ec.PointJacobi(c.curve, G[0], G[1], 1, n).mul_add(k, other, k2), p) if not g2 else got
@@ -723,6 +769,7 @@ def shipped_search(ctx):
                     A, B = mkpt(c.curve, P1, z1, n, p=p), mkpt(c.curve, P2, z2, n, p=p)
                     ja, jb = coords(A), coords(B)
                     try:
+                        kick()
                         got = to_aff(A + B, p)
                     except Exception as e:
                         got = "exception %r" % (e,)
@@ -736,6 +783,7 @@ def shipped_search(ctx):
             if r.random() < 0.2:
                 d1 = r.choice([1, 2, n - 1])
             try:
+                kick()
                 sk1, sk2 = keys.SigningKey.from_secret_exponent(d1, c), keys.SigningKey.from_secret_exponent(d2, c)
                 e1, e2 = ecdh.ECDH(c), ecdh.ECDH(c)
                 pub1, pub2 = e1.load_private_key(sk1), e2.load_private_key(sk2)
@@ -756,6 +804,8 @@ def shipped_search(ctx):
 
 def rejected(f, *a, **k):
     try:
+        if ARMED[0]:
+            kick()
         f(*a, **k)
         return False
     except Exception:
@@ -848,6 +898,7 @@ def small_ecdh_search(ctx, cvp):
     for d1 in range(1, n):
         for d2 in range(d1, n):
             try:
+                kick()
                 e1, e2 = ecdh.ECDH(C), ecdh.ECDH(C)
                 pub1 = e1.load_private_key(keys.SigningKey.from_secret_exponent(d1, C))
                 pub2 = e2.load_private_key(keys.SigningKey.from_secret_exponent(d2, C))
@@ -856,6 +907,7 @@ def small_ecdh_search(ctx, cvp):
                 res = []
                 for e in (e1, e2):
                     try:
+                        kick()
                         res.append(e.generate_sharedsecret_bytes())
                     except ecdh.InvalidSharedSecretError:
                         res.append(None)
@@ -889,6 +941,7 @@ def find_openssl():
 def openssl_diff(ctx):
     """optional: k*G and ECDH on P-256 against an openssl binary.  Never fails because the
     binary is absent or refuses an input; only a successfully computed different value counts."""
+    watchdog(False)          # subprocesses below; no implementation loop can hang here
     exe = find_openssl()
     if not exe:
         ctx.notes.append("openssl binary not found: differential skipped")
@@ -952,6 +1005,7 @@ def openssl_diff(ctx):
 
 def search(ctx):
     full = (not ctx.quick()) or bool(ctx.brokens)
+    watchdog(True)
     try:
         smalls = SMALL if full else SMALL[:7] + [ctx.rng.choice(SMALL[7:])]
         for cvp in smalls:
@@ -963,6 +1017,8 @@ def search(ctx):
             openssl_diff(ctx)
     except Stop:
         pass
+    finally:
+        watchdog(False)
     ctx.extra["small_curves"] = [list(c) for c in SMALL]
     ctx.extra["rule"] = (
         "correspondence: the 7 generated formula functions, naf, contains_point evaluated in Coq vs the real methods on "
